@@ -470,6 +470,8 @@ META["explanation"] += " " + "Also (round 10): in-place growth records the grown
 
 META["explanation"] += " " + 'Also (rounds 11-12): free-slot search covers 0..capacity-1, plain list.h traversal macros and cds_list_add_tail (witness/list.c).'
 
+META["explanation"] += " " + 'Also (round 13): no grace period sleeps with rcu_registry_lock held (shared from C02.locks): registration must be possible at any moment.'
+
 RULES = [
     ("C15.listops", rule_listops),
     ("C15.bpowner", rule_bp_owner),
